@@ -127,6 +127,35 @@ def near_misses(v, rng):
     return out
 
 
+class _FloatTok(str):
+    """a float token kept as text (json.loads parse_float / parse_constant hook)"""
+
+
+def _enc_tok(x):
+    """wire rendering of a parsed JSON text with float leaves as `D0/0:<hex of the token>` (what the Lean
+    driver prints for `parse`: the reader does not know the numeric value of a float token)"""
+    if isinstance(x, _FloatTok):
+        return "D0/0:" + hx(str(x))
+    if x is None:
+        return "N"
+    if x is True:
+        return "T"
+    if x is False:
+        return "F"
+    if isinstance(x, int):
+        return "I%d" % x
+    if isinstance(x, str):
+        return "S" + hx(x)
+    if isinstance(x, list):
+        return " ".join(["A%d" % len(x)] + [_enc_tok(e) for e in x])
+    if isinstance(x, dict):
+        parts = ["O%d" % len(x)]
+        for k, e in x.items():
+            parts += ["S" + hx(k), _enc_tok(e)]
+        return " ".join(parts)
+    raise TypeError(type(x))
+
+
 def _floats(v):
     if isinstance(v, float):
         yield v
@@ -169,6 +198,11 @@ def run_case(case, ctx):
     # model's canonical text against CPython's own json.dumps (validates the modelled encoder)
     model.append("text " + enc_val(v))
     impl.append(hx(json.dumps(v, sort_keys=True)))
+    # the Lean READER (Signac/JsonParse.lean, proved to invert the writer) against CPython's json.loads on the
+    # text the real encoder produced: same structure, key order, strings; float leaves compared by their token text
+    text = json.dumps(v)
+    model.append("parse " + hx(text))
+    impl.append(_enc_tok(json.loads(text, parse_float=_FloatTok, parse_constant=_FloatTok)))
     # hypothesis of the injectivity theorems (C01.equal_ids_collision_or_equal_checked), evaluated by
     # the Lean driver on this value: every float repr on the wire is a float token ...
     model.append("ftok " + enc_val(v))
@@ -265,7 +299,11 @@ LEVEL_TEXT = ("Proved in Lean for all values, all nesting depths and all key per
               "canonChars_injective: the JSON encoder is a prefix code), so state points that differ as JSON values are "
               "hashed from different byte strings and equal ids mean equal canonical values or an explicit MD5 collision "
               "(equal_ids_collision_or_equal; 1 vs 1.0 vs true vs '1', list order, extra key: int_float_bool_str_distinct, "
-              "list_order_distinct, extra_key_distinct). The Lean model (its own JSON encoder and MD5) is compared with the real "
+              "list_order_distinct, extra_key_distinct). A JSON READER is part of the model (Signac/JsonParse.lean) and is proved to "
+              "invert the writer: parseText (dumpChars v) = v and parseText (canonChars v) = canon v, hence the id survives a "
+              "write/read round trip of the state point file and of the sort_keys text (dump_roundtrip_same_id, "
+              "roundtrip_same_id); the reader is compared with json.loads on every text the real encoder produced. "
+              "The Lean model (its own JSON encoder and MD5) is compared with the real "
               "calc_id on every generated value and spelling, so a change to encoder options, key sorting, escaping or "
               "hashing shows up as a disagreement with a concrete value.")
 LEVEL_NOTE = ("Trusted: Lean kernel; axioms propext/Classical.choice/Quot.sound; harness (generator, wire format, "
